@@ -65,6 +65,7 @@ fn install_hook() {
     }
 }
 
+const HARNESS_STACK: usize = 2 << 30;
 const LAST_MSG_CAP: usize = 600;
 static mut LAST_MSG: [u8; LAST_MSG_CAP] = [0; LAST_MSG_CAP];
 static LAST_MSG_LEN: std::sync::atomic::AtomicUsize = std::sync::atomic::AtomicUsize::new(0);
@@ -207,12 +208,21 @@ fn main() {
     install_hook();
     let args: Vec<String> = std::env::args().collect();
     // a panic that escapes to here is a bug in the harness, never a violation
-    let code = match std::panic::catch_unwind(|| real_main(&args)) {
+    let body = move || match std::panic::catch_unwind(|| real_main(&args)) {
         Ok(c) => c,
         Err(_) => {
             eprintln!("HARNESS-ERROR internal panic: {}", ledger::take_panic_msg().unwrap_or_default());
             2
         }
+    };
+    // The unoptimised executors keep one stack slot per length arm of their dispatch `match`, so a
+    // frame that handles 4096-element arrays of 32-byte elements by value is tens of MiB: everything
+    // runs on a thread with a large (lazily committed) stack. The small-stack environment of C15 is
+    // a separate binary (stacklane) and is not affected.
+    let code = if cfg!(miri) {
+        body()
+    } else {
+        std::thread::Builder::new().stack_size(HARNESS_STACK).spawn(body).expect("spawn").join().unwrap_or(2)
     };
     std::process::exit(code);
 }
